@@ -21,7 +21,7 @@ type constDef struct {
 	isBool  bool     // value is one of true/TRUE/false/FALSE
 }
 
-var constValuePool = [][]string{{"3"}, {"FLAG_TEMP_1", "+", "3", "-", "FLAG_BASE"}, {"A", "+", "B", "+", "C", "+", "D"}, {"VAR_X", "*", "2", "+", "OFFSET", "-", "1"}, {"ITEM_NONE"}, {"0x00ff"}, {"VAR_TEMP_1"}, {"FLAG_HIDE", "+", "1"}, {"0x4001"}, {"(", "2", "*", "3", ")"}, {"ITEM_FOO"}, {"-1"}, {"TRAINER_X"}, {"LOCALID_NPC"}, {"A_B", "C_D"}}
+var constValuePool = [][]string{{"3"}, {"FLAG_TEMP_1", "+", "3", "-", "FLAG_BASE"}, {"A", "+", "B", "+", "C", "+", "D"}, {"VAR_X", "*", "2", "+", "OFFSET", "-", "1"}, {"ITEM_NONE"}, {"0x00ff"}, {"VAR_TEMP_1"}, {"FLAG_HIDE", "+", "1"}, {"0x4001"}, {"(", "2", "*", "3", ")"}, {"ITEM_FOO"}, {"-1"}, {"TRAINER_X"}, {"LOCALID_NPC"}, {"A_B", "C_D"}, {"type", "=", "MSGBOX_NPC"}, {"Nurse_Text_Heal", "kind", "=", "2"}}
 
 func isIdentTok(s string) bool {
 	if s == "" {
@@ -421,6 +421,68 @@ func runC13(ctx *h.Ctx) int {
 	prof.PAuto = 0.3
 	prof.MultiTokenCases = true
 	prof.ValueFn = 0.3
+	// constants whose value contains a comma (`const POSITION = 3, 4`, `const M = MAC(1, 2)`): as a command argument the
+	// expansion reads like the written-out tokens - compared as token sequences, because the compiler puts a blank in
+	// front of an expanded comma
+	ctx.RunCases("comma-constants", ctx.N(400, 15000), func(k *h.Case) {
+		g := spec.NewGen(k.R, spec.Profile{PTextArg: 0.4, PMovesArg: 0.2, RichArgs: true, NoEmptyArgs: true})
+		prog := g.Prog
+		vals := [][]string{{"3", ",", "4"}, {"MAC_P", "(", "1", ",", "2", ")"}, {"VAR_A", ",", "VAR_B", ",", "7"}, {"A", "+", "1", ",", "B"}}
+		expand := map[string][]string{}
+		var names []string
+		for i := 0; i < 1+k.R.IntN(2); i++ {
+			n := g.Name("COMMA_")
+			v := vals[k.R.IntN(len(vals))]
+			expand[n] = v
+			names = append(names, n)
+			prog.Items = append(prog.Items, &spec.Const{ID: prog.NewID(), Name: n, Value: v})
+		}
+		sc := &spec.Script{ID: prog.NewID(), Name: g.Name("Scr"), Body: &spec.Block{ID: prog.NewID()}}
+		for i := 0; i < 2+k.R.IntN(4); i++ {
+			c := g.Cmd()
+			at := k.R.IntN(len(c.Args) + 1)
+			args := append([]*spec.Arg{}, c.Args[:at]...)
+			args = append(args, &spec.Arg{Toks: []string{"$" + names[k.R.IntN(len(names))]}})
+			c.Args = append(args, c.Args[at:]...)
+			if k.R.IntN(2) == 0 {
+				// an inline text or moves() AFTER the constant
+				c.Args = append(c.Args, &spec.Arg{Text: g.Text()})
+			}
+			sc.Body.Stmts = append(sc.Body.Stmts, &spec.CmdStmt{Cmd: c})
+		}
+		prog.Items = append(prog.Items, sc)
+		p1 := spec.Print(prog)
+		p1.Layout(spec.LayoutOpts{})
+		p2 := spec.PrintExpanded(prog, expand)
+		p2.Layout(spec.LayoutOpts{})
+		k.SetSource(p1.Src)
+		opt := k.R.IntN(2) == 0
+		r1, r2 := h.Compile(p1.Src, optsOf(prog, opt)), h.Compile(p2.Src, optsOf(prog, opt))
+		k.Count("evaluations", 2)
+		if r1.Panic != nil || r2.Panic != nil {
+			k.Violation("panic", fmt.Sprintf("panic: %v / %v", r1.Panic, r2.Panic), nil)
+			return
+		}
+		if r1.OK() != r2.OK() {
+			k.Violation("accept-differs", fmt.Sprintf("with comma constants: %q; with values written out: %q", r1.ErrString(), r2.ErrString()), map[string]interface{}{"substituted_source": p2.Src})
+			return
+		}
+		if !r1.OK() {
+			k.Count("both_rejected", 1)
+			return
+		}
+		l1, l2 := strings.Split(r1.Out, "\n"), strings.Split(r2.Out, "\n")
+		same := len(l1) == len(l2)
+		for i := 0; same && i < len(l1); i++ {
+			same = normLine(l1[i]) == normLine(l2[i])
+		}
+		if !same {
+			k.Violation("comma-constant-differs", "output with comma constants differs (as token sequences) from the output with the values written out", map[string]interface{}{"with_constants": r1.Out, "substituted": r2.Out, "substituted_source": p2.Src})
+			return
+		}
+		k.Count("comma_constant_pairs_equal", 1)
+		k.Nontrivial("comma", len(sc.Body.Stmts), len(r1.Out)/32)
+	})
 	ctx.RunCases("const-pairs", ctx.N(6000, 300000), func(k *h.Case) {
 		prof := prof
 		if k.Index%3 == 2 {
